@@ -1,4 +1,5 @@
 import Ts.Model.App
+import Ts.Spec.TableSpec
 /-!
 # Specification of routing: what ONE applied table (a PAT or a PMT version) means
 
@@ -8,13 +9,15 @@ entries threading the context and a change queue; here
 * `patRequests` / `pmtRequests` say which request a table entry stands for,
 * `handlerFor` says which kind of handler the harness application answers a request with,
 * `built` / `constructEvents` hand out consecutive tags,
-* `Outdated` is the set difference `registered \ seen` (over the 13-bit PID space),
+* `Outdated` is the set difference `registered \ seen` (over the 13-bit PID space); the model's
+  `App.outdated` (used to abbreviate the change queues `patChanges` / `pmtChanges`) is proved to be its
+  strictly ascending enumeration (`C05.outdated_spec`),
 * `applied` is the routing table `pid ↦ handler` as a FUNCTION, updated by one applied table:
   the last entry listing a PID wins; PIDs of the previous version that are no longer listed are
   un-routed; nothing else moves.
 -/
 namespace Ts.Spec.Routing
-open Ts Ts.Tables Ts.App Ts.Demux
+open Ts Ts.Tables Ts.App Ts.Demux Ts.Spec.TableSpec
 
 /-- the request a PAT entry stands for: program-map PID with the announced program number, or NIT
 PID for program number 0 -/
@@ -54,6 +57,33 @@ def constructEvents : Nat → List (Nat × Req) → List Ev
   | _, [] => []
   | tag, (_, r) :: rest => .construct r tag :: constructEvents (tag + 1) rest
 
+/-- the application context after the `construct` callbacks for `reqs`: the tag counter advanced by
+one per request, the trace (most recent first) extended by exactly these events, nothing else -/
+def ctxAfter (c : Ctx) (reqs : List (Nat × Req)) : Ctx :=
+  { c with nextTag := c.nextTag + reqs.length,
+           trace := (constructEvents c.nextTag reqs).reverse ++ c.trace }
+
+/-- the stream entries of a PMT body as the crate exposes them (stream type, elementary PID,
+descriptor bytes), from the spec's stream loop (`TableSpec.specStreams`) -/
+def streamsOf (body : Bytes) : List StreamInfo := (specStreams (specStreamBytes body)).1.map StreamEnc.info
+
+/-- the section body handed to the table parser: bytes `[8, len - 4)` (after the common header and
+the table-syntax header, before the CRC) -/
+def sectionBody (data : Bytes) : Bytes := (data.drop 8).take (data.length - 12)
+
+/-- the change queue of one applied PAT with body `body`, by a PAT filter whose previous version
+had installed `reg`, in a context whose next tag is `c.nextTag`: one insert per entry in order, then
+one remove per outdated PID, ascending -/
+def patChanges (c : Ctx) (reg : List Nat) (body : Bytes) : List (Change Handler) :=
+  (built c.nextTag (patRequests (specPat body))).map (fun x => Change.insert x.1 x.2)
+    ++ (outdated reg ((specPat body).map PatEntry.pid)).map Change.remove
+
+/-- the same for one applied PMT received on `pmtPid` -/
+def pmtChanges (c : Ctx) (pmtPid : Nat) (reg : List Nat) (body : Bytes) : List (Change Handler) :=
+  (built c.nextTag (pmtRequests pmtPid (specPcrPid body) (specProgramDescBytes body) (streamsOf body))).map
+      (fun x => Change.insert x.1 x.2)
+    ++ (outdated reg ((streamsOf body).map StreamInfo.pid)).map Change.remove
+
 /-- `p` was installed by the previous version of the table and is not listed by this one -/
 def Outdated (registered seen : List Nat) (p : Nat) : Prop := p < 8192 ∧ p ∈ registered ∧ p ∉ seen
 
@@ -71,5 +101,15 @@ def applied {α : Type} (r : Nat → Option α) (listed : List (Nat × α)) (reg
   match lastFor listed p with
   | some a => some a
   | none => if Outdated registered (listed.map (·.1)) p then none else r p
+
+/-! ### example sections used by the non-vacuity checks -/
+
+/-- a PAT section (table_id 0, version 1) listing the NIT on 0x10 and program 1 on 0x100, CRC bytes
+arbitrary (the processor does not look at them) -/
+def patSectionEx : Bytes :=
+  [0x00, 0xb0, 0x11, 0x00, 0x01, 0xc3, 0x00, 0x00, 0x00, 0x00, 0xe0, 0x10, 0x00, 0x01, 0xe1, 0x00, 0, 0, 0, 0]
+
+/-- a PMT section (table_id 2) whose body is `pmtExample` (H.264 on 0x100, AAC on 0x101) -/
+def pmtSectionEx : Bytes := [0x02, 0xb0, 0x1d, 0x00, 0x01, 0xc1, 0x00, 0x00] ++ pmtExample ++ [0, 0, 0, 0]
 
 end Ts.Spec.Routing
